@@ -4,6 +4,7 @@
   Model: `Jence.search` (`src/search.rs`, including the fallback added by commit `0cbdbfa`), generic in the rules.
 -/
 import Jence.Lemmas.Top
+import Jence.Lemmas.NoOverflow
 import Jence.Props.C01
 import Jence.Lemmas.LegalMoves
 namespace Jence.Props.C03
@@ -95,5 +96,14 @@ theorem bestmove_rules_legal (cfg : Cfg) (g : Game) (b : Board) (depth : Int) (t
     (ho : (search chessRules cfg g depth tt rep).2.rep.overflow = false) :
     smove (search chessRules cfg g depth tt rep).1.bestMove ∈ Spec.legalMoves (Spec.abs g) :=
   (legal_refines wf nk _).2 ⟨_, bestmove_legal_chess cfg g depth tt rep wf.ok.epLe hne ho, rfl⟩
+
+
+/-- **T3.1 with the overflow hypothesis discharged**: whenever the history handed to `search` leaves 65 free slots in the
+    history array (`HistoryRoom`: every game of up to `REP_CAPACITY - 65` = 935 recorded positions; longer ones are finding D7),
+    the answer denotes a move that is legal by the rules specification. -/
+theorem bestmove_rules_legal_of_room (cfg : Cfg) (g : Game) (b : Board) (depth : Int) (tt : TT) (rep : RepTable)
+    (wf : Wf g b) (nk : NoKingCapture g) (hne : legalValues g ≠ []) (hroom : HistoryRoom rep) :
+    smove (search chessRules cfg g depth tt rep).1.bestMove ∈ Spec.legalMoves (Spec.abs g) :=
+  bestmove_rules_legal cfg g b depth tt rep wf nk hne (search_no_overflow chessRules cfg g depth tt rep hroom).1
 
 end Jence.Props.C03
